@@ -18,7 +18,7 @@ from .. import gen, xu, zoo
 LEVEL = "fault_enumeration"
 EXHAUSTIVE = {"quick": False, "thorough": True}
 RULE = (
-    "fault catalogue (fit-time: 16 faults, transform-time: 12, inverse_transform: 3, negative controls: 4) x model class "
+    "fault catalogue (fit-time: 21 faults, transform-time: 13, inverse_transform: 3, negative controls: 4) x model class "
     "(quick: representatives of every family; thorough: every class of xeofs.single/cross/multi incl. rotators) x "
     "container kind (DataArray / Dataset / list) where the fault is expressible; every combination is enumerated, "
     "nothing is sampled (the seed only changes the numbers inside the valid base data); non-trivial = the un-mutated "
@@ -35,12 +35,12 @@ ALL_CLASSES = tuple(zoo.SINGLE) + tuple(zoo.SINGLE_ROT) + tuple(zoo.CROSS) + tup
 FIT_FAULTS = (
     "type_ndarray", "type_list_ndarray", "type_dataframe", "type_none", "type_int",
     "dim_unknown", "dim_empty", "dim_all", "dim_nonstring",
-    "nmodes_gt_rank", "nmodes_zero", "nmodes_negative", "nmodes_string", "nmodes_none", "nmodes_float_gt1",
+    "nmodes_gt_rank", "nmodes_rank_plus1", "nmodes_gt_rank_square", "nmodes_zero", "nmodes_negative", "nmodes_string", "nmodes_none", "nmodes_float_gt1",
     "solver_unknown", "alpha_negative", "samples_mismatch", "weights_ndarray",
 )
 TRANSFORM_FAULTS = (
     "t_type_ndarray", "t_missing_feature_dim", "t_missing_sample_dim", "t_extra_dim", "t_renamed_dim", "t_shifted_coords",
-    "t_reordered_other_values", "t_fewer_features", "t_dropped_variable", "t_wrong_list_length", "t_dataarray_for_dataset",
+    "t_reordered_other_values", "t_fewer_features", "t_dropped_variable", "t_wrong_list_length", "t_list_too_long", "t_list_for_single", "t_dataarray_for_dataset",
 )
 INVERSE_FAULTS = ("i_unknown_mode", "i_unknown_modes_mixed", "i_type_ndarray")
 # c_dataset_wrapping_dataarray: the SAME numbers wrapped into a one-variable Dataset for a DataArray-fitted model;
@@ -64,8 +64,10 @@ def _applicable(cls, container, fault):
         return cls.endswith("CPCCA")
     if fault == "samples_mismatch":
         return cross or k == "multi"
-    if fault == "nmodes_gt_rank":
-        return not rot
+    if fault in ("nmodes_gt_rank", "nmodes_rank_plus1", "nmodes_gt_rank_square"):
+        if cls == "ExtendedEOF" and fault != "nmodes_gt_rank":
+            return False  # the rank that matters there is that of the delay-embedded matrix
+        return not rot and cls not in ("POP",) or (cls == "POP" and fault == "nmodes_gt_rank")
     if fault == "solver_unknown":
         return k != "multi"
     if fault == "weights_ndarray":
@@ -75,8 +77,10 @@ def _applicable(cls, container, fault):
             return False
         if fault in ("t_dropped_variable", "t_dataarray_for_dataset"):
             return container == "dataset"
-        if fault == "t_wrong_list_length":
+        if fault in ("t_wrong_list_length", "t_list_too_long"):
             return container == "list"
+        if fault == "t_list_for_single":
+            return container == "dataarray" and k != "multi"
         if fault in ("t_missing_feature_dim", "t_fewer_features", "t_reordered_other_values", "t_shifted_coords", "t_renamed_dim", "t_extra_dim", "t_missing_sample_dim"):
             return True
     if fault.startswith("i_"):
@@ -162,6 +166,10 @@ def _mutate_transform(fault, X, rng):
         return X.drop_vars("vb")
     if fault == "t_wrong_list_length":
         return X[:1]
+    if fault == "t_list_too_long":
+        return list(X) + [X[0]]
+    if fault == "t_list_for_single":
+        return [X, X.isel(lon=0, drop=True) if "lon" in X.dims else X]
     if fault == "t_dataarray_for_dataset":
         return X["va"]
     raise KeyError(fault)
@@ -273,6 +281,22 @@ def run_case(case, obs):
             expect_refusal(lambda: do_fit(d, dim=alld), "all dimensions declared as sample dimensions")
         elif fault == "dim_nonstring":
             expect_refusal(lambda: do_fit(d, dim=0), "non-string sample dimension")
+        elif fault == "nmodes_rank_plus1":
+            # one more than min(n_samples, n_features) of the first field
+            p0 = int(np.prod([first.sizes[x] for x in first.dims if x != "time"])) * (len(first.data_vars) if isinstance(first, xr.Dataset) else 1)
+            if isinstance(d[0], list):
+                p0 = sum(int(np.prod([o.sizes[x] for x in o.dims if x != "time"])) for o in d[0])
+            bad = min(n, p0) + 1
+            extra = {"n_pca_modes": bad} if base == "OPA" else {}
+            expect_refusal(lambda: (lambda f: (f.scores(), f.components()))(do_fit(d, dict(kw, n_modes=bad, **extra))), f"n_modes={bad} = rank+1")
+        elif fault == "nmodes_gt_rank_square":
+            # square decomposed matrix (n_samples == n_features) and the exact solver: an SVD that is truncated
+            # afterwards would silently return fewer modes than requested
+            sq = [_field(rng, n, (4, 4), ("lat", "lon"), cplx)] + ([_field(rng, n, (4, 4), ("lat", "lon"), cplx)] if (cross or multi) else []) + ([Z] if multi else [])
+            extra = {"n_pca_modes": n + 1} if base == "OPA" else {}
+            if cross:
+                extra["use_pca"] = False
+            expect_refusal(lambda: (lambda f: (f.scores(), f.components()))(do_fit(sq, dict(kw, n_modes=n + 1, solver="full", **extra) if not multi else dict(kw, n_modes=n + 1))), f"n_modes={n + 1} > rank of a square {n}x{n} problem")
         elif fault == "nmodes_gt_rank":
             expect_refusal(lambda: do_fit(d, dict(kw, n_modes=200, **({"n_pca_modes": 200} if base in ("OPA",) else {}))), "more modes than the rank")
         elif fault.startswith("nmodes_"):
